@@ -24,7 +24,8 @@ LEVEL_TEXT = ('Decides clauses C20-a..e: YEAR_DELTAS (401 entries), YEAR_TO_FLAG
               'counter value -- trace partitioning -- so that 10^counter is a constant in each partition; a form the analysis cannot bound is reported as not decided'
               ", not as a violation). C20-g: each digit byte written by into_imf_fixdate is b'0' plus a closed arithmetic term over the field value x (the innermost "
               'value converted to u8) that equals x/10, x%10 or x for every x in 0..=99, tens then units in pairs (term comparison over the finite domain, like the c'
-              'alendar tables). Decides these clauses, not the day/year arithmetic or the digit extraction for all inputs.')
+              'alendar tables; a rendering that produces no such arithmetic digit terms -- a table of digit pairs -- is not decided by this clause). Decides these cl'
+              'auses, not the day/year arithmetic or the digit extraction for all inputs.')
 
 
 def run(ck, progs):
@@ -761,6 +762,11 @@ def c20g(ck, prog):
             kinds.append(("other", c, "differs from x/10 and x%%10, first at x = %s (gives %s)" % (first, vals[first] if first is not None else "?")))
     bad = [k for k in kinds if k[0] in ("other", "?")]
     f = f0
+    if n == 0:
+        # digits not produced as `b'0' + e` at all (a table of digit pairs, a formatting call): this clause reads arithmetic
+        # digit terms only and does not decide such a rendering (stated in the level text) -- silent, not a report
+        ck.ob(R, "imf:digit-expressions", True, f.loc(None), how="not decided: no `b'0' + e` digit terms in into_imf_fixdate", nontrivial=False)
+        return
     ok = not bad and n >= 3
     ck.ob(R, "imf:digit-expressions", ok, f.loc(None),
           "" if ok else ("a digit of the IMF-fixdate is not the tens or the units digit of its field: %s" % bad[0][2] if bad else "only %d digit writes found" % n),
